@@ -10,6 +10,8 @@ mod search;
 mod time_control;
 mod uci;
 mod utils;
+#[cfg(feature = "verif")]
+mod verif_hooks;
 mod zobrist;
 
 /*
